@@ -14,7 +14,8 @@
                hypothesis of field_order_irrelevant; failing that, mcanon_block (chunks of a split
                packed column concatenated: the format's equality; such inputs belong to the known
                finding "packed-column-split" and must fail judgement 2 under that class only)
-            4  the description is outside format_valid_block/valid_header (generator defect), or the
+            4  the description is outside format_valid_block/valid_header or has a coordinate beyond
+               4e14 nanodegrees (coords_small: the domain of the 1e-10 degree clause; generator defect), or the
                model answers E_WIRE on a tree (the tree is not well-typed, see Pbf/Tree.v: outside
                the domain on which the model speaks for the implementation).
                format_valid_block = valid_block + plain Node items (known finding
@@ -71,7 +72,7 @@ Definition check_case (t : toks) : list Z :=
       let expected := flat_map (fun b => elements (fst b)) bs in
       let j3 := forallb (fun b => msg_eqb (canon_block (snd b)) (encode_block (fst b))
                                    || msg_eqb (mcanon_block (snd b)) (encode_block (fst b))) bs in
-      let j4 := forallb (fun b => format_valid_block (fst b)) bs
+      let j4 := forallb (fun b => format_valid_block (fst b) && coords_small (fst b)) bs
                 && match scan_file cfg_all 1 trees with Err c => negb (c =? E_WIRE) | _ => true end in
       dedup ((match h with Some hc => header_codes hc | None => [] end)
              ++ flat_map (obs_codes trees expected) os
